@@ -88,6 +88,9 @@ func genCase(r *Rng) Replay {
 		} else if r.Chance(1, 12) {
 			ps.Hold = 2
 		}
+		if np > 1 && r.Chance(1, 14) {
+			ps.Fail = true // the journal controller cannot open it while the statements run
+		}
 		parts[i] = ps
 	}
 	return Replay{Kind: "trunc", Parts: parts, PSeed: r.U64()}
@@ -114,10 +117,14 @@ func drawParams(r *Rng, parts []PartSpec, before []PartObs) Params {
 	if r.Chance(3, 10) {
 		p.SrcForm = "tags"
 	}
+	if r.Chance(1, 16) {
+		// a source the parser accepts and the tag-condition builder refuses: nothing may happen, whatever else is asked for
+		p.BadSrc = r.PickStr("like", "func", "arity")
+	}
 	var sel []int
 	total := int64(0)
 	for i, ps := range parts {
-		if ps.Grp == "a" && len(before[i].Chunks) > 0 {
+		if matched(ps, p) && len(before[i].Chunks) > 0 {
 			sel = append(sel, i)
 			if ps.Hold != 2 {
 				total += partSize(before[i])
@@ -256,6 +263,14 @@ func corpus() []Replay {
 	// a held partition under MAXDBSIZE 0: emptied but not dropped, and not reported; an empty one is dropped
 	cs = append(cs, Replay{Kind: "trunc", Parts: []PartSpec{{Grp: "a", Batches: mono(0, 6, 36, 1, 0), Hold: 1}, {Grp: "a", Empty: true}, {Grp: "a", Empty: true, Hold: 1}},
 		P: &Params{SrcForm: "expr", Min: -1, Max: -1, Before: -1, MaxDb: 0}})
+	// a source condition the builder refuses (malformed LIKE pattern / unknown function): an error, nothing is touched although MAXDBSIZE 0 asks for everything
+	cs = append(cs, Replay{Kind: "trunc", Parts: []PartSpec{{Grp: "a", Batches: mono(0, 6, 36, 1, 0)}, {Grp: "a", Empty: true}},
+		P: &Params{SrcForm: "expr", Min: -1, Max: 1, Before: -1, MaxDb: 0, BadSrc: "like"}})
+	cs = append(cs, Replay{Kind: "trunc", Parts: []PartSpec{{Grp: "a", Batches: mono(0, 4, 36, 1, 0)}},
+		P: &Params{SrcForm: "expr", Min: -1, Max: -1, Before: 1000, MaxDb: -1, BadSrc: "func"}})
+	// a partition whose journal cannot be opened is skipped (untouched, not reported, not counted for MAXDBSIZE); the others are processed
+	cs = append(cs, Replay{Kind: "trunc", Parts: []PartSpec{{Grp: "a", Batches: mono(0, 6, 36, 1, 0), Fail: true}, {Grp: "a", Batches: mono(1, 6, 36, 1, 0)}, {Grp: "a", Empty: true, Fail: true}},
+		P: &Params{SrcForm: "expr", Min: -1, Max: 150, Before: -1, MaxDb: 250}})
 	// MAXSIZE/MINSIZE guards: 9 chunks of 100: MAXSIZE 450 MINSIZE 440 stops at 500; the second partition is locked
 	cs = append(cs, Replay{Kind: "trunc", Parts: []PartSpec{{Grp: "a", Batches: mono(0, 18, 36, 1, 0), Park: 4}, {Grp: "a", Batches: mono(1, 3, 36, 1, 0), Hold: 2}},
 		P: &Params{SrcForm: "expr", Min: 440, Max: 450, Before: -1, MaxDb: -1}})
